@@ -111,6 +111,19 @@ PROPS["C06"] = {
     "assumptions": ["read-repair is stated for reads executed by the partition owner with every backup owner reachable and no previous owner (C06_read_repair hypotheses); unreachable members are skipped by the code and by the model",
                     "on equal timestamps the incoming / later gathered version wins; the property does not order ties and the oracle accepts either"],
 }
+PROPS["C08"] = {
+    "lean": ["OlricModel.Props.C08"],
+    "streams": [("locks", (12, 70), (150, 200)), ("cluster", (4, 150), (30, 400))],
+    "model": True,
+    "level_text": "Theorems, by refinement to an abstract lock (one Option (token, deadline)): in a stable healthy cluster every history of Lock / Unlock / Lease steps of the cluster model - for every replica count, quorum and read-repair setting - answers exactly like the abstract lock and keeps owner and backups mirrored (C08_refines); on the abstract lock, for ALL histories by any number of clients at non-decreasing instants, with the second halves of Unlock and Lease delayed past other clients' steps and past deadlines: every token handed out, not given back and not past its (leased) deadline is THE stored lock, so at most one token is held at any instant (C08_mutex, C08_tokens_unique); Lock returns a token iff no live entry is stored (C08_acquire_iff); a step not presenting the live holder's token fails with lock-not-acquired / no-such-lock and changes nothing (C08_holder_stable, C08_chk); a lock with a timeout is held exactly until floor((now+timeout)/1ms) and acquirable from then on, one without never expires (C08_timeout, C08_no_timeout, C08_deadline_granularity). Tied to the code by the locks stream: all entry points, virtual clock moved onto every deadline, competitors scheduled inside Unlock/Lease at yield points of the harness build, waiting acquisitions, and a real-concurrency critical-section race.",
+    "design_ref": "DESIGN.md §6 C08",
+    "modelled": DMAP_MODELLED + "; dmap.Lock/tryLock (one attempt = one step), unlockKey/leaseKey as two steps (token comparison; guarded delete / expiry update under the fragment lock)",
+    "assumptions": ["each step (a tryLock attempt, the guarded delete, the guarded expiry update) is atomic: it runs under the owner's fragment lock (exercised, not proved: real-concurrency race in the stream)",
+                    "lock tokens are never reused (16 random bytes)",
+                    "the waiting loop of Lock (10 ms polling until the deadline, real-time timers) is runtime behaviour: the stream checks that lock-not-acquired is never returned before the deadline and that a waiting Lock acquires once the holder's timeout passes",
+                    "deadlines are stored in whole milliseconds: a lock may be released up to 1 ms before now+timeout (C08_deadline_granularity)",
+                    "a DMap-wide default TTL (TTLDuration) applies to lock entries like to any entry: 'without timeout' means without DMap default either"],
+}
 PROPS["C09"] = {
     "lean": ["OlricModel.Props.C09"],
     "streams": [("cluster", (14, 150), (150, 400))],
